@@ -39,7 +39,10 @@ MANIFEST = dict(
          'certificates against gradient_3D.gradient_of; np.linalg.inv / np.linalg.lstsq only as contracts (checked on samples through the results); '
          'pandas plumbing (groupby, sort, de-duplication "keep first", Series alignment) is covered by correspondence/relations, not by theorems; '
          'the Lstsq and HotSpot models are hand-written (HotSpot tied by vm_compute correspondence on integer-valued fields with dyadic limit_frac, '
-         'float fields only against an independent Python reference of the property); floating-point rounding outside the theorems.',
+         'float fields only against an independent Python reference of the property); floating-point rounding outside the theorems. '
+         'The theorems hold under "the Jacobian handed to inv is regular"; that the kernels do reach inv for every regular Jacobian (the only guard is '
+         'the except LinAlgError handler, any other guard is rejected by the translator) is checked on the implementation by the linear-field relation on '
+         'meshes expressed in length units 1e-9 .. 1e9 and with thin/long elements.',
     technique='Coq proof over symbolically translated element kernels (ring) + hand-written Gallina models; CoqInterval certificates; '
               'vm_compute correspondence; implementation-only relations for griddata / solid angles',
     design='6/C19')
@@ -149,25 +152,36 @@ def known_gradient_defect(d):
     return set(obs) == set(pred) and all(np.allclose(obs[k], pred[k], rtol=1e-7, atol=1e-9) for k in pred)
 
 
-def grad_tol(g, coords):
-    return 1e-8 * (1.0 + max(abs(x) for x in g))
+def grad_tol(g, coords, elements=None, values=None):
+    """1e-8 relative to the gradient.  For the meshes in other length units (elements / values given) additionally the
+    rounding of the nodal values themselves, which no exact algorithm can avoid: each value carries a relative error of
+    2^-53 and the gradient divides value differences by the element size, so an error of eps*max|f|/h is inherent
+    (it dominates for a constant field of size 5 on elements of 1e-8); allowed: 1e-12 * max|f| / (shortest node
+    distance inside an element), i.e. ~4500 eps for the conditioning of perturbed, sheared, 1:100 thin elements (measured: <= 15 eps on 600 meshes + 600 single elements).  At unit
+    scale (|f| < 100, h > 0.1) this term is < 1e-9 and is not used."""
+    tol = 1e-8 * (1.0 + max(abs(x) for x in g))
+    if elements is not None:
+        h = min(math.dist(coords[a], coords[b]) for e in elements for i, a in enumerate(e) for b in e[i + 1:])
+        tol += 1e-12 * max(abs(v) for v in values) / h
+    return tol
 
 
-def check_linear(res, acc, mesh, g, c, idkind, node_ids, elem_ids, row_order, flip, rng, stats):
+def check_linear(res, acc, mesh, g, c, idkind, node_ids, elem_ids, row_order, flip, rng, stats, stat='linear_', value_rounding=False, **info):
     coords, elements = mesh
     values = mg.linear_values(coords, g, c)
     st, out = run_gradient(acc, coords, elements, node_ids, elem_ids, values, row_order, flip, rng)
     what = WHAT_GRAD if acc == 'gradient' else WHAT_G3
     mj = mg.mesh_json(coords, elements, node_ids, elem_ids, values=[float(v) for v in values], linear_field=dict(g=list(g), c=c),
-                      accessor=acc, id_map=idkind, row_order=row_order, flip_levels=flip)
-    stats['linear_' + acc] = stats.get('linear_' + acc, 0) + 1
+                      accessor=acc, id_map=idkind, row_order=row_order, flip_levels=flip, **info)
+    stats[stat + acc] = stats.get(stat + acc, 0) + 1
     if st != 'ok':
         res.violation(what, mesh=mj, observed=st, detail=out, expected='gradient %r at every node' % (list(g),))
         return False
     if sorted(out) != sorted(node_ids):
         res.violation(what, mesh=mj, observed={str(k): v for k, v in out.items()}, expected='one row per node id')
         return False
-    tol = grad_tol(g, coords)
+    tol = grad_tol(g, coords, elements, values) if value_rounding else grad_tol(g, coords)
+    mj['tolerance'] = tol
     worst = max(max(abs(out[k][j] - g[j]) for j in range(3)) for k in out)
     if not worst <= tol:
         res.violation(what, mesh=mj, observed={str(k): v for k, v in out.items()}, max_error=worst,
@@ -207,9 +221,12 @@ def check_renumbering(res, acc, mesh, values, idkind, node_ids, rng, stats):
 
 def check_quadratic_rows(res, rng, stats):
     """Elements given with 16/20 (hexahedral) or 10 (simplex) rows: corner rows exact, remaining rows zero."""
-    g, c = rand_field(rng)
+    g0, c0 = rand_field(rng)
     for nrows, maker in ((20, mg.hex_block), (16, mg.hex_block), (10, mg.tet_block)):
         coords, elements, _ = maker(1, 1, 1, rng)
+        unit = rng.choice([1.0] + UNITS)
+        coords = in_unit(coords, unit)
+        g, c, _ = unit_field(rng, g0, c0, unit)
         el = elements[0]
         k = len(el)
         pts = [coords[a] for a in el]
@@ -220,16 +237,36 @@ def check_quadratic_rows(res, rng, stats):
         vals = mg.linear_values(pts, g, c)
         st, out = run_gradient('gradient_3D', pts, [tuple(range(nrows))], ids, [rng.randint(1, 99)], vals)
         stats['quadratic_rows'] = stats.get('quadratic_rows', 0) + 1
-        mj = mg.mesh_json(pts, [tuple(range(nrows))], ids, [1], values=vals, linear_field=dict(g=list(g), c=c), accessor='gradient_3D')
+        mj = mg.mesh_json(pts, [tuple(range(nrows))], ids, [1], values=vals, linear_field=dict(g=list(g), c=c), accessor='gradient_3D',
+                          length_unit=unit, corner_rows=k)
         if st != 'ok':
             res.violation(WHAT_G3, mesh=mj, observed=st, detail=out)
             continue
-        tol = grad_tol(g, pts)
+        tol = grad_tol(g, pts) if unit == 1.0 else grad_tol(g, pts, [tuple(range(k))], vals)
+        mj['tolerance'] = tol
         okc = all(abs(out[ids[a]][j] - g[j]) <= tol for a in range(k) for j in range(3))
         okz = all(out[ids[a]] == (0.0, 0.0, 0.0) for a in range(k, nrows))
         if not (okc and okz):
             res.violation(WHAT_G3, mesh=mj, observed={str(i): out[i] for i in ids},
                           expected='gradient %r on the first %d rows, zeros on the others' % (list(g), k))
+
+
+# Length units: the same well-shaped mesh expressed in another unit (micrometres ... kilometres; one non-decimal factor).
+# The property quantifies over every non-degenerate mesh, so nothing may depend on the absolute size of an element
+# (absolute thresholds on determinants / distances / volumes show up only here).
+UNITS = [1e-4, 1e3, 1e-6, 1e6, 2.54e-2, 1e-9, 1e-3, 1e9]
+
+
+def in_unit(coords, unit):
+    return [tuple(unit * v for v in p) for p in coords]
+
+
+def unit_field(rng, g, c, unit):
+    """A linear field on the mesh expressed in `unit`: either the same physical field (gradient g/unit, nodal values
+    unchanged) or a field with the same O(1) gradient (nodal values scale with the unit)."""
+    if rng.random() < 0.5:
+        return tuple(x / unit for x in g), c, 'same nodal values (gradient / unit)'
+    return g, c * unit, 'same gradient (nodal values * unit)'
 
 
 def rand_field(rng):
@@ -240,6 +277,7 @@ def rand_field(rng):
 
 
 def gradient_relations(res, rng, n_mesh, stats):
+    unit0 = rng.randrange(len(UNITS))
     for m in range(n_mesh):
         dims = rng.choice([(1, 1, 1), (2, 1, 1), (2, 2, 1), (2, 2, 2), (3, 2, 1), (3, 2, 2)] if n_mesh < 20 else
                           [(1, 1, 1), (2, 1, 1), (2, 2, 1), (2, 2, 2), (3, 2, 1), (3, 2, 2), (3, 3, 3), (4, 4, 4), (4, 2, 1)])
@@ -261,6 +299,21 @@ def gradient_relations(res, rng, n_mesh, stats):
                 check_linear(res, acc, (coords, elements), g, c, kind, node_ids, elem_ids, order, flip, rng, stats)
                 if kind != 'contiguous':
                     check_renumbering(res, acc, (coords, elements), nonlin, kind, node_ids, rng, stats)
+        # the same mesh in another length unit (cycling through UNITS separately for hexahedra and tetrahedra, so that
+        # every tier sees small and large units for both kernels), linear field, one id map, both operators
+        unit = UNITS[(unit0 + m // 2) % len(UNITS)]
+        # ... and, half of the time, with one axis compressed / stretched by 100 (thin or long, still regular elements:
+        # a size test relative to the element's own dimensions is as wrong as an absolute one)
+        aspect, axis = rng.choice([1.0, 1.0, 1e-2, 1e2]), rng.randrange(3)
+        ucoords = [tuple(unit * v * (aspect if d == axis else 1.0) for d, v in enumerate(p)) for p in coords]
+        ug, uc, ufield = unit_field(rng, g, c, unit)
+        kind = rng.choice(kinds)
+        node_ids = mg.id_map(kind, n, rng)
+        elem_ids = mg.id_map(rng.choice(['contiguous', 'gaps', 'shuffled', 'sparse_shuffled']), len(elements), rng)
+        order = rng.choice(['blocks', 'shuffled_blocks'])
+        for acc in ('gradient_3D', 'gradient'):
+            check_linear(res, acc, (ucoords, elements), ug, uc, kind, node_ids, elem_ids, order, False, rng, stats,
+                         stat='linear_other_length_unit_', value_rounding=True, length_unit=unit, field=ufield, axis_factor=[axis, aspect])
     check_quadratic_rows(res, rng, stats)
 
 
@@ -476,16 +529,121 @@ def hotspot_stage(res, rng, n_rand, n_mesh, n_float, stats):
 
 # ------------------------------------------------------------------------------------------------ mapping, surface
 
+TARGET_SHAPES_3D = ['plane_z', 'single', 'plane_x', 'line_z', 'oblique_plane', 'plane_y', 'line_x', 'line_y', 'repeated_point']
+TARGET_SHAPES_2D = ['line_y', 'single', 'line_x', 'repeated_point']
+
+
+def target_points(shape, lo, hi, three_d, rng):
+    """Interior target points (in lattice units, inside [lo, hi]) of a given arrangement.  The property speaks of
+    interior points without any condition on how they lie relative to each other: a cloud, the points of a cutting
+    plane / a line parallel to an axis (one or two coordinates shared by ALL points), an oblique plane, one single
+    point, the same point several times."""
+    k = rng.randint(3, 12)
+    pts = [[rng.uniform(lo[d], hi[d]) for d in range(3)] for _ in range(k)]
+    if shape.startswith('plane_') or shape.startswith('line_'):
+        axis = 'xyz'.index(shape[-1])
+        fixed = [axis] if shape.startswith('plane_') else [d for d in range(3) if d != axis]
+        for d in fixed:
+            v = rng.choice([rng.uniform(lo[d], hi[d]), float(rng.randint(1, int(hi[d])))])   # also a lattice plane
+            for p in pts:
+                p[d] = v
+    elif shape == 'oblique_plane':
+        for p in pts:
+            p[2] = lo[2] + (hi[2] - lo[2]) * (0.2 + 0.3 * (p[0] - lo[0]) / (hi[0] - lo[0]) + 0.3 * (p[1] - lo[1]) / (hi[1] - lo[1]))
+    elif shape == 'single':
+        pts = pts[:1]
+    elif shape == 'repeated_point':
+        pts = [list(pts[0]) for _ in range(rng.randint(2, 4))]
+    if not three_d:
+        for p in pts:
+            p[2] = 0.0
+    return [tuple(p) for p in pts]
+
+
+def flatten_layer(coords, dims, axis, k, exact=True):
+    """Puts the nodes of lattice layer `k` along `axis` of an mg.hex_block(*dims) exactly onto the plane
+    coordinate = k (the other coordinates keep their perturbation; the mesh stays non-degenerate and 3D).
+    exact=False: only lists the nodes of the layer."""
+    nx, ny, nz = dims
+    out, layer = list(coords), []
+    for kk in range(nz + 1):
+        for j in range(ny + 1):
+            for i in range(nx + 1):
+                if (i, j, kk)[axis] == k:
+                    nd = i + (nx + 1) * (j + (ny + 1) * kk)
+                    if exact:
+                        p = list(out[nd])
+                        p[axis] = float(k)
+                        out[nd] = tuple(p)
+                    layer.append(nd)
+    return out, layer
+
+
+def map_linear_case(case):
+    """Maps the linear field g.x + c given at the nodes of `case['mesh']` onto `case['points']` (both already in the
+    case's length unit).  Returns (ok, observed, expected); everything is rebuilt from the JSON-able `case`."""
+    m, g, c = case['mesh'], case['linear_field']['g'], case['linear_field']['c']
+    three_d = m['dims'] == 3
+    pts = [tuple(p) for p in case['points']]
+    lin = mg.frame([tuple(p) for p in m['coords']], m['elements'], m['node_ids'], m['elem_ids'],
+                   mg.linear_values(m['coords'], g, c), row_order='blocks')
+    tgt = pd.DataFrame({'x': [p[0] for p in pts], 'y': [p[1] for p in pts], 'z': [p[2] for p in pts]},
+                       index=pd.Index(case['target_ids'], name='node_id'))
+    if not three_d:
+        lin, tgt = lin.drop(columns=['z']), tgt.drop(columns=['z'])
+    want = np.array(mg.linear_values(pts, g, c))
+    try:
+        with time_limit():
+            got = tgt.meshmapper.process(lin, 'f')
+    except Exception as e:   # noqa: BLE001
+        return False, repr(e)[:200], [float(x) for x in want]
+    val = got['f'].to_numpy()
+    err = np.abs(val - want)
+    # tolerance in terms of the nodal values (which do not depend on the length unit): g_phys = g * unit
+    gmax = max(abs(x) for x in g) * case['length_unit']
+    ok = bool(got.index.equals(tgt.index) and len(val) == len(want) and np.all(err <= 1e-9 * (1 + np.abs(want).max() + gmax * 5)))
+    return ok, [float(x) for x in val], [float(x) for x in want]
+
+
+def map_subset_case(case):
+    """Maps the (non-linear) nodal field of `case['mesh']` onto a subset of the mesh's own rows."""
+    m = case['mesh']
+    three_d = m['dims'] == 3
+    src = mg.frame([tuple(p) for p in m['coords']], m['elements'], m['node_ids'], m['elem_ids'], m['values'], row_order='blocks')
+    if not three_d:
+        src = src.drop(columns=['z'])
+    keep = set(case['subset_node_ids'])
+    sel = np.array([nd in keep for nd in src.index.get_level_values('node_id')])
+    tgt = src[sel].drop(columns=['f'])
+    want = src['f'].to_numpy()[sel]
+    try:
+        with time_limit():
+            got = tgt.meshmapper.process(src, 'f')
+    except Exception as e:   # noqa: BLE001
+        return False, repr(e)[:200], [float(x) for x in want]
+    val = got['f'].to_numpy()
+    ok = bool(got.index.equals(tgt.index) and len(val) == len(want) and np.all(np.abs(val - want) <= 1e-9 * (1 + np.abs(want))))
+    return ok, [float(x) for x in val], [float(x) for x in want]
+
+
 def mapping_relations(res, rng, n, stats):
+    shape3, shape2 = rng.randrange(len(TARGET_SHAPES_3D)), rng.randrange(len(TARGET_SHAPES_2D))
     for m in range(n):
         three_d = m % 3 != 0
         dims = rng.choice([(2, 2, 2), (3, 2, 2), (3, 3, 2)])
         coords, elements, _ = mg.hex_block(*dims, rng, jitter=0.2)
+        # 60 %: one lattice layer of nodes exactly plane (targets taken from it share one coordinate); still a 3D mesh
+        axis, layer_k = rng.randrange(3 if three_d else 2), rng.randint(0, 2)
+        coords, layer = flatten_layer(coords, dims, axis, layer_k, exact=rng.random() < 0.6)
         g, c = rand_field(rng)
         if not three_d:
             coords = [(p[0], p[1], 0.0) for p in coords]
             g = (g[0], g[1], 0.0)
         nonlin = [math.sin(p[0]) + p[1] * p[2] + p[0] ** 2 for p in coords]
+        # the mesh in another length unit (nodal values unchanged), half of the cases
+        unit = 1.0 if rng.random() < 0.5 else rng.choice(UNITS)
+        coords = in_unit(coords, unit)
+        g = tuple(x / unit for x in g)
         ids = mg.id_map(rng.choice(mg.ID_MAPS), len(coords), rng)
         eids = mg.id_map(rng.choice(['contiguous', 'gaps', 'shuffled']), len(elements), rng)
         src = mg.frame(coords, elements, ids, eids, nonlin, row_order='shuffled_blocks', rng=rng)
@@ -493,41 +651,47 @@ def mapping_relations(res, rng, n, stats):
             src = src.drop(columns=['z'])
         # (a) mapping a mesh's field onto the same points returns the field
         stats['map_identity'] = stats.get('map_identity', 0) + 1
+        mja = mg.mesh_json(coords, elements, ids, eids, values=nonlin, dims=3 if three_d else 2, length_unit=unit)
         try:
             with time_limit():
                 got = src.meshmapper.process(src, 'f')
         except Exception as e:   # noqa: BLE001
-            res.violation(WHAT_MAP, relation='identity', mesh=mg.mesh_json(coords, elements, ids, eids, values=nonlin, dims=3 if three_d else 2),
-                          observed=repr(e)[:200])
+            res.violation(WHAT_MAP, relation='identity', mesh=mja, observed=repr(e)[:200])
             continue
         err = np.abs(got['f'].to_numpy() - src['f'].to_numpy())
         if not (got.index.equals(src.index) and np.all(err <= 1e-9 * (1 + np.abs(src['f'].to_numpy())))):
-            res.violation(WHAT_MAP, relation='identity', mesh=mg.mesh_json(coords, elements, ids, eids, values=nonlin, dims=3 if three_d else 2),
+            res.violation(WHAT_MAP, relation='identity', mesh=mja,
                           max_error=float(np.nanmax(err)) if not np.all(np.isnan(err)) else 'nan')
-        # (b) a linear field mapped onto interior points returns the linear values
-        lin = mg.frame(coords, elements, ids, eids, mg.linear_values(coords, g, c), row_order='blocks')
-        k = rng.randint(3, 12)
+        # (a') ... and onto a part of the same points (one node, the nodes of one element, one plane layer of nodes)
+        for sub in ('one_node', 'one_element', 'plane_layer'):
+            nodes = {'one_node': [rng.randrange(len(coords))], 'one_element': list(elements[rng.randrange(len(elements))]),
+                     'plane_layer': layer}[sub]
+            case = dict(relation='identity on a subset of the points', subset=sub, mesh=mja, subset_node_ids=[ids[a] for a in nodes])
+            stats['map_identity_subset'] = stats.get('map_identity_subset', 0) + 1
+            ok, obs, want = map_subset_case(case)
+            if not ok:
+                res.violation(WHAT_MAP, observed=obs, expected=want, **case)
+        # (b) a linear field mapped onto interior points returns the linear values; for every arrangement of the
+        #     target points: a cloud and two special arrangements per mesh (cycling, so that every tier sees each)
         lo = [0.3, 0.3, 0.3]
         hi = [dims[0] - 0.3, dims[1] - 0.3, dims[2] - 0.3]
-        pts = [tuple(rng.uniform(lo[d], hi[d]) if (three_d or d < 2) else 0.0 for d in range(3)) for _ in range(k)]
-        tgt = pd.DataFrame({'x': [p[0] for p in pts], 'y': [p[1] for p in pts], 'z': [p[2] for p in pts]},
-                           index=pd.Index(rng.sample(range(1, 1000), k), name='node_id'))
-        if not three_d:
-            lin, tgt = lin.drop(columns=['z']), tgt.drop(columns=['z'])
-        want = np.array(mg.linear_values(pts, g, c))
-        stats['map_linear'] = stats.get('map_linear', 0) + 1
-        try:
-            with time_limit():
-                got = tgt.meshmapper.process(lin, 'f')
-        except Exception as e:   # noqa: BLE001
-            res.violation(WHAT_MAP, relation='linear field at interior points', linear_field=dict(g=list(g), c=c), points=pts,
-                          mesh=mg.mesh_json(coords, elements, ids, eids, dims=3 if three_d else 2), observed=repr(e)[:200])
-            continue
-        err = np.abs(got['f'].to_numpy() - want)
-        if not (got.index.equals(tgt.index) and np.all(err <= 1e-9 * (1 + np.abs(want).max() + max(abs(x) for x in g) * 5))):
-            res.violation(WHAT_MAP, relation='linear field at interior points', linear_field=dict(g=list(g), c=c), points=pts,
-                          mesh=mg.mesh_json(coords, elements, ids, eids, dims=3 if three_d else 2),
-                          observed=[float(x) for x in got['f'].to_numpy()], expected=[float(x) for x in want])
+        if three_d:
+            shapes = ['cloud'] + [TARGET_SHAPES_3D[(shape3 + i) % len(TARGET_SHAPES_3D)] for i in (0, 1)]
+            shape3 += 2
+        else:
+            shapes = ['cloud', TARGET_SHAPES_2D[shape2 % len(TARGET_SHAPES_2D)]]
+            shape2 += 1
+        for shape in shapes:
+            pts = in_unit(target_points(shape, lo, hi, three_d, rng), unit)
+            case = dict(relation='linear field at interior points', target_arrangement=shape, linear_field=dict(g=list(g), c=c),
+                        points=[list(p) for p in pts], target_ids=rng.sample(range(1, 1000), len(pts)), length_unit=unit,
+                        mesh=mg.mesh_json(coords, elements, ids, eids, dims=3 if three_d else 2))
+            stats['map_linear'] = stats.get('map_linear', 0) + 1
+            hist = res.cov.setdefault('map_target_arrangements', {})
+            hist[shape] = hist.get(shape, 0) + 1
+            ok, obs, want = map_linear_case(case)
+            if not ok:
+                res.violation(WHAT_MAP, observed=obs, expected=want, **case)
 
 
 def surface_relations(res, rng, n, stats):
@@ -537,13 +701,15 @@ def surface_relations(res, rng, n, stats):
                                                   scale=tuple(rng.choice([0.5, 1.0, 2.0]) for _ in range(3)),
                                                   origin=tuple(rng.uniform(-3, 3) for _ in range(3)),
                                                   shear=tuple(rng.uniform(-0.7, 0.7) for _ in range(3)) if m % 2 else (0.0, 0.0, 0.0))
+        unit = 1.0 if m % 2 == 0 else UNITS[(m // 2) % len(UNITS)]      # the same block in another length unit
+        coords = in_unit(coords, unit)
         kind = mg.ID_MAPS[m % len(mg.ID_MAPS)]
         ids = mg.id_map(kind, len(coords), rng)
         eids = mg.id_map(rng.choice(['contiguous', 'gaps', 'shuffled', 'zero_based']), len(elements), rng)
         df = mg.frame(coords, elements, ids, eids, None, row_order=rng.choice(['blocks', 'shuffled_blocks']),
                       flip_levels=rng.random() < 0.3, rng=rng)
         stats['surface'] = stats.get('surface', 0) + 1
-        mj = mg.mesh_json(coords, elements, ids, eids, id_map=kind, boundary_node_ids=sorted(ids[b] for b in boundary))
+        mj = mg.mesh_json(coords, elements, ids, eids, id_map=kind, boundary_node_ids=sorted(ids[b] for b in boundary), length_unit=unit)
         try:
             with time_limit():
                 s = df.surface_3D.is_at_surface()
@@ -592,7 +758,9 @@ def run(res):
                         'HotSpot model values are integers and limit_frac dyadic in the correspondence (exact in doubles); arbitrary doubles only against the Python reference',
                         'scipy griddata and the solid-angle surface detection are not modelled: relations on the implementation only',
                         'duplicate (element_id, node_id) rows and NaN values are outside the property']
-    res.cov['rule'] = ('perturbed (jitter <= 0.2 cell), anisotropically scaled and sheared hexahedral blocks up to 3x2x2 (quick) / 4x4x4 (thorough) and their 5-tetrahedra splits, node-id maps '
+    res.cov['rule'] = ('perturbed (jitter <= 0.2 cell), anisotropically scaled and sheared hexahedral blocks up to 3x2x2 (quick) / 4x4x4 (thorough) and their 5-tetrahedra splits, '
+                       'each also expressed in another length unit (1e-9 .. 1e9, cycling per kernel; one axis x 0.01 / x 100 in half of them), mapping targets as cloud / axis-parallel plane / '
+                       'line / oblique plane / single / repeated point and subsets of the source nodes (one node, one element, one exactly plane layer), node-id maps '
                        '{1..N, offset, gaps, reversed, shuffled, zero based, sparse shuffled}, element-id maps, element blocks shuffled, index levels flipped, '
                        'random linear fields (15 % constant) and one non-linear field for renumbering; hot spots: random (element,node) row sets with small integer '
                        'values (ties) and block meshes with 1-3 peaks, limit_frac k/q (q | 16) incl. 0 and > 1, 20 % artefact thresholds; non-trivial = '
@@ -648,7 +816,10 @@ def replay(res, rp):
                                                    for i in range(n) for j in range(3))
         else:
             g = m['linear_field']['g']
-            bad = st != 'ok' or any(abs(out[k][j] - g[j]) > 1e-8 * (1 + max(abs(x) for x in g)) for k in out for j in range(3))
+            tol = m.get('tolerance', 1e-8 * (1 + max(abs(x) for x in g)))
+            nc = m.get('corner_rows', len(m['node_ids']))      # 16/20/10-row elements: the other rows stay zero
+            want = {nid: (g if i < nc else [0.0, 0.0, 0.0]) for i, nid in enumerate(m['node_ids'])}
+            bad = st != 'ok' or sorted(out) != sorted(want) or any(not abs(out[k][j] - want[k][j]) <= tol for k in out for j in range(3))
         print('replay:', acc, st, 'violates' if bad else 'holds')
         if bad:
             new = res.violation(what, mesh=m, observed=st if st != 'ok' else {str(k): x for k, x in out.items()})
@@ -665,6 +836,13 @@ def replay(res, rp):
         if bad:
             new = res.violation(what, rows=v['rows'], values=v['values'], limit_frac=v['limit_frac'], artefact_threshold=art,
                                 observed=out, expected=spec)
+    elif what == WHAT_MAP and v.get('relation') in ('linear field at interior points', 'identity on a subset of the points') \
+            and 'dims' in v.get('mesh', {}):
+        ok, obs, want = (map_linear_case if v['relation'].startswith('linear') else map_subset_case)(v)
+        bad = not ok
+        print('replay: meshmapper', v['relation'], obs, 'expected', want)
+        if bad:
+            new = res.violation(what, **{k: x for k, x in v.items() if k not in ('what', 'observed', 'expected')}, observed=obs, expected=want)
     if bad is None:
         run(res)
         return res.finish()
